@@ -44,7 +44,23 @@ Theorem C12_without : forall (B : backend) u names,
 Proof. exact without_query_params_spec. Qed.
 Print Assumptions C12_without.
 
-(** PARTIAL: that the serialised pairs read back unchanged (parse_qsl inverts the query-part
+(** with_query(list of pairs) yields exactly the pairs of q, in order: parse_qsl inverts the
+    serialisation - every key and value (any surrogate-free text: '&', '=', '+', ';', '%',
+    '#', spaces, non-ASCII, non-BMP) reads back unchanged and the '&' / '=' structure is
+    recovered; both backends *)
+From Yarl Require Import Spec.QuoteSpec Proofs.QueryRoundtrip.
+Theorem C12_with_query_pairs : forall (B : backend) (u : url) (items : list (str * str)) (u' : url),
+  pairs_ok items -> with_query B u (QASeq (map qv_of_str items)) = Ok u' -> query_pairs u' = items.
+Proof. exact with_query_pairs. Qed.
+Print Assumptions C12_with_query_pairs.
+
+Theorem C12_parse_inverts_serialise : forall items : list (str * str),
+  pairs_ok items -> parse_qsl (join [38%N] (map chunk_of items)) = items.
+Proof. exact parse_serialised. Qed.
+Print Assumptions C12_parse_inverts_serialise.
+
+(** PARTIAL (remaining): mapping arguments with list values and numeric renderings go through
+    the same serialiser (model: str_query_from_seq_items), and that the serialised pairs read back unchanged (parse_qsl inverts the query-part
     quoter) and that MultiDict.update satisfies the update clause are stated as the
     executable predicate c12_pred (Preds/P12.v: list algebra on decoded pairs) and checked
     on the implementation and the model; they are not proved. *)
